@@ -559,7 +559,7 @@ impl Stream {
         &self,
         group_name: &str,
         consumer_name: &str,
-        after_id: StreamId,
+        after_id: Option<StreamId>,
         count: Option<usize>,
         noack: bool
     ) -> Result<Vec<StreamEntry>, String> {
@@ -567,15 +567,26 @@ impl Stream {
         let group = self.consumer_groups.get_group(group_name)
             .ok_or_else(|| format!("NOGROUP No such consumer group {} for stream", group_name))?;
         
+        if let Some(after_id) = after_id {
+            // An explicit ID (None stands for ">") re-reads history: what was delivered to THIS consumer and is
+            // not acknowledged yet, after that ID. Nothing else moves - entries held by
+            // other consumers stay theirs, undelivered entries stay undelivered and the
+            // group's last-delivered ID stays where it is
+            let ids: Vec<StreamId> = group
+                .get_pending_range(None, None, usize::MAX, Some(consumer_name))
+                .into_iter()
+                .map(|pending| pending.id)
+                .filter(|id| *id > after_id)
+                .take(count.unwrap_or(usize::MAX))
+                .collect();
+            return Ok(self.get_entries(&ids).into_iter().flatten().collect());
+        }
+        
         // Get entries after the specified ID
         let data = self.data.lock().unwrap();
-        let entries = if after_id == StreamId::max() {
-            // Special case: ">" means only new entries
-            let last_delivered = group.get_last_id();
-            data.range_after(&last_delivered, count).entries
-        } else {
-            data.range_after(&after_id, count).entries
-        };
+        // ">" means only new entries
+        let last_delivered = group.get_last_id();
+        let entries = data.range_after(&last_delivered, count).entries;
         
         drop(data);
         
@@ -586,11 +597,9 @@ impl Stream {
         } else {
             // NOACK deliveries are not pending, but they are deliveries: the
             // group moves on, or the same entries would be handed out again
-            if after_id == StreamId::max() {
-                if let Some(last_entry) = entries.last() {
-                    if last_entry.id > group.get_last_id() {
-                        group.set_id(last_entry.id);
-                    }
+            if let Some(last_entry) = entries.last() {
+                if last_entry.id > group.get_last_id() {
+                    group.set_id(last_entry.id);
                 }
             }
             Ok(entries)
